@@ -97,11 +97,41 @@ def settings_atol(repo):
     return frac_of_literal(a, "quara/settings.py:Settings.__atol")
 
 
+BASIS_SITES = [("MatrixBasis", "is_orthogonal", "np.isclose", "mb_is_orthogonal"), ("MatrixBasis", "is_normal", "np.isclose", "mb_is_normal"),
+               ("SparseMatrixBasis", "is_orthogonal", "np.isclose", "smb_is_orthogonal"),
+               ("SparseMatrixBasis", "is_normal", "mutil.isclose", "smb_is_normal")]
+
+
+def basis_tolerances(repo=None):
+    """rtol of the closeness call of the basis verdicts (their atol must be `Settings.get_atol()`), reference value second argument"""
+    repo = repo or common.REPO
+    file = "quara/objects/matrix_basis.py"
+    tree = ast.parse(open(os.path.join(repo, file)).read())
+    mtree = ast.parse(open(os.path.join(repo, "quara/utils/matrix_util.py")).read())
+    out = []
+    for cls, fn, callee, stem in BASIS_SITES:
+        f = pytolean.find_def(tree, fn, cls)
+        where = f"{file}:{cls}.{fn}"
+        calls = [c for c in ast.walk(f) if isinstance(c, ast.Call) and ast.unparse(c.func) in CLOSE_FUNCS]
+        if len(calls) != 1 or ast.unparse(calls[0].func) != callee:
+            raise pytolean.Untranslatable(f"{where}: expected exactly one `{callee}` call")
+        c = calls[0]
+        kw = {k.arg: k.value for k in c.keywords}
+        ref = {"is_orthogonal": "0", "is_normal": "1"}[fn]
+        if len(c.args) != 2 or ast.unparse(c.args[1]) != ref or set(kw) - {"atol", "rtol"} or \
+                ast.unparse(kw.get("atol", ast.parse("None").body[0].value)) != "Settings.get_atol()":
+            raise pytolean.Untranslatable(f"{where}:{c.lineno}: expected `{callee}(i_product, {ref}, atol=Settings.get_atol())`: `{ast.unparse(c)}`")
+        rtol = frac_of_literal(kw["rtol"], where) if "rtol" in kw else default_rtol_of(mtree, callee, where)
+        out.append((stem, rtol, f"{file}:{c.lineno} `{ast.unparse(c)}`" + ("" if "rtol" in kw else "  (rtol keyword absent: default)")))
+    return out
+
+
 def tolerances(repo=None):
     repo = repo or common.REPO
     out = []
     for file, cls, fn, callees, stems in SITES:
         out += site_tolerances(repo, file, cls, fn, callees, stems)
+    out += basis_tolerances(repo)
     return out, settings_atol(repo)
 
 
@@ -221,7 +251,9 @@ EXPECTED_WIRING = [
     "def is_tp_first_row_branch (c_sys_flag : Bool) : Bool :=\n  c_sys_flag\n",
 ]
 EXPECTED_RTOL = {"state_is_trace_one": Fraction("1e-5"), "povm_is_identity_sum": Fraction("1e-5"), "gate_is_tp_row": Fraction(0),
-                 "gate_is_tp_trace": Fraction(0), "mutil_is_hermitian": Fraction(0), "mutil_is_psd_eig": Fraction(0)}
+                 "gate_is_tp_trace": Fraction(0), "mutil_is_hermitian": Fraction(0), "mutil_is_psd_eig": Fraction(0),
+                 "mb_is_orthogonal": Fraction("1e-5"), "mb_is_normal": Fraction("1e-5"), "smb_is_orthogonal": Fraction("1e-5"),
+                 "smb_is_normal": Fraction("1e-5")}
 
 
 def translate(ctx):
@@ -645,6 +677,14 @@ def correspondence(ctx):
             eflags += "1" if e.is_orthonormal_hermitian_0thprop_identity else "0"
         want = ("1" if c.is_orthonormal_hermitian_0thprop_identity else "0") + " " + eflags
         pend.append(("basis flag", (bname, bits), want, drv.ask("onh0", ",".join(bits))))
+        # the basis verdicts themselves (is_hermitian, is_orthogonal, is_normal) on the matrices of each subsystem's basis
+        for e in c.elemental_systems:
+            b_ = e.basis
+            mats = [np.array(x.toarray() if hasattr(x, "toarray") else x, dtype=np.complex128) for x in b_]
+            re_, im_ = cparts(np.array(mats))
+            wantb = " ".join("1" if x else "0" for x in (b_.is_hermitian(), b_.is_orthogonal(), b_.is_normal()))
+            pend.append(("basis verdicts", (bname, type(b_).__name__), wantb,
+                         drv.ask("basis", type(b_).__name__, b_.dim, len(mats), re_, im_, q(Fraction(repr(Settings.get_atol()))))))
         ctx.case(("basisflag", bname), nontrivial=len(bits) > 1)
     # origin objects
     for bname in ("1qubit", "qutrit", "2qubit"):
@@ -678,8 +718,9 @@ PARTIAL = [
     "PSD verdict <-> Matrix.PosSemidef is a sandwich (psdVerdict_sandwich_matrix, state/gatePhysical_sandwich_matrix) under the explicit contracts: "
     "M exactly Hermitian, eigvalsh list eps-accurate (EigApprox); psdVerdict_eigs_iff_posSemidef_exact_partial needs a rational spectrum; "
     "POVM / measurement-process verdicts are reduced to per-element psdVerdict (povmPsd_iff, mpCp_iff), the matrix-level sandwich is applied per element",
-    "the basis verdicts is_normal / is_orthogonal / is_0thpropI themselves are not modelled (their results are parameters of the generated flag "
-    "aggregation); the TP verdict is characterised syntactically (tp_row_iff, tpTrace_iff), 'trace preserving as a map' is not stated",
+    "basis verdicts: is_hermitian / is_orthogonal / is_normal are modelled with generated rtol and characterised (basisIs*_iff); is_0thpropI "
+    "(np.allclose against complex entries with the default rtol) stays a parameter of the generated flag; the TP verdict is characterised "
+    "syntactically (tp_row_iff, tpTrace_iff), 'trace preserving as a map' is not stated",
     "origin objects are proved physical as scalar operator matrices (origin_state_physical, origin_povm_physical, origin_gate_tp, "
     "origin_mprocess_sum_tp) for identity-first orthonormal bases only; that the library's origin arrays denote these operators is checked on the "
     "real code; on other Hermitian bases the library's origin object is not physical (finding C01-F2)",
